@@ -138,6 +138,10 @@ found:
 		intvs := make([]bgzf.Offset, eiv+1)
 		if len(ref.Intervals) > biv {
 			biv = len(ref.Intervals)
+		} else if len(ref.Intervals) < biv {
+			// Empty tiles are left between the tiles recorded so far
+			// and the new ones: the tile array needs sorting again.
+			i.IsSorted = false
 		}
 		for iv := biv; iv <= eiv; iv++ {
 			intvs[iv] = c.Begin
